@@ -13,6 +13,7 @@ journalled namespace operations (model b) and a set of torn variants of the un-s
 into post-crash images; each distinct image of the wallet path is booted as a fresh SimFS incarnation
 and read with the real `WalletStorage.read()`.
 """
+import asyncio
 import hashlib
 import json
 import unicodedata
@@ -61,6 +62,8 @@ ASSUMPTIONS = [
     'channel certificates are stored in clear by design and are excluded from the plaintext scan',
     'unlock is only issued on a locked wallet (unlock of an unlocked wallet just records the password)',
     '"fails to unlock" = Wallet.unlock returns False or raises InvalidPasswordError/ValueError',
+    'schedules: one other task may call Wallet.save() while unlock(right password) is suspended in the database '
+    '(encryption is enabled and the user has supplied the password: that save must not write secrets in clear)',
 ]
 EXPECTED_PROBES = [
     'save_enumerated', 'crash_points', 'images_checked', 'images_distinct', 'image_old', 'image_new', 'image_absent_ok',
@@ -74,7 +77,7 @@ EXPECTED_PROBES = [
     'unpack_wrong_raised', 'crash_in_save_old', 'crash_in_save_new', 'add_account_while_locked', 'process_crash',
     'ns_journal_prefixes', 'completed_save_verified', 'remove_account', 'pid_changed', 'crash_left_temp_file',
     'stale_tmp_at_save', 'stale_tmp_reused', 'stale_tmp_longer_than_new', 'crash_in_save_pre_rename',
-    'crash_in_save_post_write', 'crash_in_save_mid_write',
+    'crash_in_save_post_write', 'crash_in_save_mid_write', 'race_save_during_unlock',
 ]
 
 def extra_coverage(cov):
@@ -326,6 +329,12 @@ def gen(run_seed, tier):
             ops.append({'op': 'unlock', 'pw': 'wrong', 'variant': r.choice(_WRONG_VARIANTS),
                         'alt': r.randrange(len(passwords))})
         ops.append({'op': 'unlock', 'pw': 'right'})
+    # another task of the daemon saves the wallet while unlock() is suspended in the database (its own stream,
+    # so the histories of earlier versions of this generator are unchanged)
+    rr = stream('C13.gen.race', run_seed)
+    for op in ops:
+        if op['op'] == 'unlock' and op.get('pw') == 'right' and rr.random() < 0.35:
+            op['race_save'] = rr.choice([1, 1, 2, 2, 3, 5, 8])
     return {'family': family, 'pid_mode': r.choices(['same', 'change'], [3, 1])[0],
             'chunk': r.choice([512, 1024, 4096, 4096, 4096, 8192, 65536]),
             'bufsize': r.choice([8192, 8192, 4096, 1 << 20]), 'tear_extra': r.choice([1, 2, 4]),
@@ -694,7 +703,7 @@ def execute(scenario, keep_trace=False):
         finally:
             mount.fs = prev
 
-    def scan_plaintext(ref):
+    def scan_plaintext(ref, context='encryption enabled and password set'):
         P['plaintext_scan'] += 1
         streams = []
         for path in sorted(set(ref.offered) | set(ref.written)):
@@ -718,7 +727,7 @@ def execute(scenario, keep_trace=False):
                 for path, content in streams:
                     if needle in content:
                         bad('C13.plaintext_on_disk',
-                            f'encryption enabled and password set, but the plaintext {what} of a {o["kind"]} '
+                            f'{context}, but the plaintext {what} of a {o["kind"]} '
                             f'account was written to {path}', secret=what, acct=o['kind'])
 
     def reference_save(wallet, action, label):
@@ -1046,14 +1055,56 @@ def execute(scenario, keep_trace=False):
         pw_before = wallet.encryption_password
         was = [m.enc is not None and m.secret for m in M.accounts]
         model_pw_before = M.password
+        pref_before = M.pref
         expected = model_unlock(pw)
         raised = None
+        race = {'done': False, 'fs': None, 'error': None}
+        racer = None
+        if expected and right is not None and op.get('race_save') is not None and pref_before:
+            async def race_save(k):
+                for _ in range(k):
+                    await asyncio.sleep(0)
+                if race['done']:
+                    P['race_save_after_unlock'] += 1     # unlock() never suspended (no private key to prime)
+                    return
+                fs = mount.fs
+                fs.settle()
+                fs.reset_log()
+                try:
+                    wallet.save()
+                except AssertionError:
+                    raise
+                except Exception as e:  # noqa
+                    race['error'] = e
+                    return
+                race['fs'] = fs
+                race['pref_after'] = bool(wallet.preferences.get(ENCRYPT_ON_DISK, False))
+                race['locked_at_save'] = wallet.is_locked
+            racer = asyncio.ensure_future(race_save(int(op['race_save'])))
         try:
             res = await wallet.unlock(pw)
         except (InvalidPasswordError, ValueError) as e:
             res, raised = False, type(e).__name__
         except Exception as e:  # noqa
+            race['done'] = True
             unexpected('unlock_' + ('right' if expected else 'wrong'), e)
+        race['done'] = True
+        if racer is not None:
+            await racer
+            if race['error'] is not None:
+                unexpected('save_during_unlock', race['error'])
+            if race['fs'] is not None:
+                # encryption was enabled, the file on disk was encrypted and unlock() had been given the right
+                # password: a save of another task in that window must not write the secrets in clear
+                P['race_save_during_unlock'] += 1
+                run.ev('race_save', n, race['locked_at_save'], race['pref_after'])
+                scan_plaintext(race['fs'], 'encryption enabled, unlock() called with the right password and suspended '
+                               'in the database; another task saved the wallet in that window')
+                if not race['pref_after']:
+                    bad('C13.plaintext_on_disk', 'a save issued by another task while unlock(right password) was '
+                        'suspended switched the encrypt-on-disk preference off', secret='pref', acct='-')
+                model_save()
+                race['fs'].settle()
         run.ev('unlock', n, flavour, bool(res), raised, wallet.is_locked)
         sync_watch_flags(wallet)
         if not expected:
